@@ -391,6 +391,14 @@ impl VersionSet {
             }
         }
 
+        if maybe_manifest_read_error.is_none() && manifest_reader.skipped_damaged_fragment() {
+            // Unlike the write-ahead log, the manifest cannot lose a record: every version edit
+            // builds on the ones before it.
+            maybe_manifest_read_error = Some(RecoverError::ManifestCorruption(
+                "A damaged record was found in the manifest file.".to_string(),
+            ));
+        }
+
         if maybe_manifest_read_error.is_none() {
             if maybe_curr_file_num.is_none() {
                 maybe_manifest_read_error = Some(RecoverError::ManifestParse(
